@@ -99,9 +99,13 @@ type opInfo struct {
 	Fields []string
 }
 
-func classify(text string) docInfo {
+func classify(text string) docInfo { return classifyLimit(text, 0) }
+
+// classifyLimit: what gqlparser says about the text when the parser may read at most limit tokens (0: no limit) -
+// a text that exceeds the limit does not parse.
+func classifyLimit(text string, limit int) docInfo {
 	d := docInfo{Text: text}
-	doc, err := parser.ParseQuery(&ast.Source{Input: text})
+	doc, err := parser.ParseQueryWithTokenLimit(&ast.Source{Input: text}, limit)
 	if err != nil {
 		return d
 	}
@@ -144,6 +148,7 @@ type serverCfg struct {
 	Transports []string  `json:"transports"`
 	Hdr        string    `json:"hdr"` // none | ct | noct
 	NoSuggest  bool      `json:"disable_suggestion"`
+	TokenLimit int       `json:"parser_token_limit,omitempty"`
 }
 
 type server struct {
@@ -232,6 +237,9 @@ func newServer(cfg serverCfg) *server {
 	}
 	if cfg.NoSuggest {
 		srv.SetDisableSuggestion(true)
+	}
+	if cfg.TokenLimit > 0 {
+		srv.SetParserTokenLimit(cfg.TokenLimit)
 	}
 	srv.SetRecoverFunc(func(ctx context.Context, err any) error {
 		s.recovers++
@@ -700,6 +708,8 @@ func RunAs(prop string) func(*gen.Ctx) error {
 			if err := concurrentFirstRequests(c, gen.NewRand(c.Seed+55), meta); err != nil {
 				return err
 			}
+			nwr := websocketRejections(meta)
+			meta.Notes = append(meta.Notes, fmt.Sprintf("%d websocket sessions (both subprotocols) whose first operation is refused (by either mutator hook of an extension, by the parser, the validator, operation selection, variable coercion): an error for its id, no interceptor, no executor, the next operation on the connection runs", nwr))
 		}
 		if prop == "C07" || prop == "C09" {
 			if err := poolHistories(c, prop, gen.NewRand(c.Seed+99), meta); err != nil {
@@ -715,6 +725,8 @@ func RunAs(prop string) func(*gen.Ctx) error {
 			meta.Notes = append(meta.Notes, fmt.Sprintf("%d websocket sessions (both subprotocols) in which a query is answered beside a running stream on the same connection: the frames under each id must be those the operation gets alone on a fresh server", nws))
 			nh := apqFreshOracle(meta)
 			meta.Notes = append(meta.Notes, fmt.Sprintf("%d request histories (every history up to length 3 over text / text+own hash / text+another text's hash / hash only x two texts) against a server with the APQ extension: a request that carries its text must be answered as by a fresh server", nh))
+			ncx := complexityFreshOracle(gen.NewRand(c.Seed+63), meta)
+			meta.Notes = append(meta.Notes, fmt.Sprintf("%d requests in histories that send one query text again and again with different variables to a server with a query cache and a complexity limit whose cost function reads an argument: each answered as by a fresh server", ncx))
 			k := 300
 			if c.Thorough() {
 				k = 5000
@@ -846,6 +858,20 @@ func Generate(c *gen.Ctx, prop string, r *gen.Rand, meta *gen.Meta) (int, error)
 		if plan != nil && plan.cache != "" {
 			cfg.Cache, cfg.CacheK = plan.cache, 3
 		}
+		// a parser token limit: texts with more tokens do not parse on this server (and are classified accordingly)
+		ldocs, ldocsTerm := docs, "docs"
+		if plan == nil && (i%6 == 5 || r.Chance(1, 10)) {
+			cfg.TokenLimit = 3 + r.Intn(14)
+			ldocs = nil
+			var ts []string
+			for _, t := range docTexts {
+				d := classifyLimit(t, cfg.TokenLimit)
+				ldocs = append(ldocs, d)
+				ts = append(ts, d.coq())
+			}
+			ldocsTerm = gen.List(ts)
+			stats["servers_with_parser_token_limit"]++
+		}
 		srv := newServer(cfg)
 		hlen := 1 + r.Intn(8)
 		if plan != nil {
@@ -882,7 +908,10 @@ func Generate(c *gen.Ctx, prop string, r *gen.Rand, meta *gen.Meta) (int, error)
 			o.Fresh = same(o, fresh)
 			reqs = append(reqs, q)
 			obs = append(obs, o)
-			reqTerms = append(reqTerms, q.coq(docs, emptyDoc))
+			reqTerms = append(reqTerms, q.coq(ldocs, emptyDoc))
+			if cfg.TokenLimit > 0 && docs[q.Doc].Parses && !ldocs[q.Doc].Parses {
+				stats["requests_over_the_token_limit"]++
+			}
 			obsTerms = append(obsTerms, o.coq())
 			stats["via_"+q.Transport]++
 			stats["body_"+q.Body]++
@@ -907,8 +936,8 @@ func Generate(c *gen.Ctx, prop string, r *gen.Rand, meta *gen.Meta) (int, error)
 			ts = append(ts, map[string]string{"options": "ROptions", "get": "RT TGet", "post": "RT TPost", "graphql": "RT TGraphql", "form": "RT TUrlEncoded", "multipart": "RT TMultipartForm"}[t])
 		}
 		hdr := map[string]string{"none": "HdrNone", "ct": "HdrWithContentType", "noct": "HdrWithoutContentType"}[cfg.Hdr]
-		cf.Add(fmt.Sprintf("{| pc_docs := docs; pc_exts := %s; pc_cache := %s; pc_transports := %s; pc_hdr := %s; pc_reqs := %s; pc_obs := %s |}",
-			gen.List(exts), cache, gen.List(ts), hdr, gen.List(reqTerms), gen.List(obsTerms)))
+		cf.Add(fmt.Sprintf("{| pc_docs := %s; pc_exts := %s; pc_cache := %s; pc_transports := %s; pc_hdr := %s; pc_reqs := %s; pc_obs := %s |}",
+			ldocsTerm, gen.List(exts), cache, gen.List(ts), hdr, gen.List(reqTerms), gen.List(obsTerms)))
 		descr = append(descr, histCase{cfg, reqs, obs, sig})
 		if hlen > 1 && len(cfg.Exts) > 0 {
 			jb, _ := json.Marshal(struct {
